@@ -77,10 +77,16 @@ Definition src_of (t : rt) : rt :=
   end.
 
 (* fuel for the loops of Unbatcher / Filter: one more than everything a source can deliver *)
+Fixpoint item_size (x : item) : nat :=
+  match x with
+  | IList l => S (fold_right (fun y m => item_size y + m) 0 l)
+  | _ => 1
+  end.
+Definition items_size (xs : list item) : nat := fold_right (fun y m => item_size y + m) 0 xs.
 Fixpoint pipe_fuel (p : pipe) : nat :=
   match p with
-  | PSrc xs _ => S (length xs)
-  | PSampler orders => S (fold_right (fun o m => Nat.max (length o) m) 0 orders)
+  | PSrc xs _ => S (items_size xs)
+  | PSampler orders => S (fold_right (fun o m => Nat.max (items_size o) m) 0 orders)
   | PMap _ q | PParMap _ _ q | PPrefetch _ q | PBatch _ _ q | PUnbatch q | PFilter _ q => S (pipe_fuel q)
   end.
 
